@@ -16,6 +16,7 @@ import json
 from typing import Any
 
 from . import classscope as cs
+from . import fieldstate
 from .common import Rng
 
 KINDS = ["pydantic.BaseModel", "pydantic_v2.BaseModel", "dataclasses.dataclass", "typing.TypedDict", "msgspec.Struct"]
@@ -211,6 +212,7 @@ def campaign(ck, n: int) -> None:
     t0 = time.time()
     rng = ck.rng.fork("fieldcover")
     v2_cases = []
+    all_cases = []
     for i in range(n):
         kind = KINDS[i % 5]
         spec = random_spec(rng, kind)
@@ -250,11 +252,58 @@ def campaign(ck, n: int) -> None:
         camp.hit("covered" if ok else "not_covered")
         if ok and len(camp.samples) < 2 and len(text) > 120:
             camp.samples.append({"kind": kind, "rendered": text[:400], "bound_by_imports": sorted(bound)})
-        if kind in ("pydantic_v2.BaseModel", "pydantic.BaseModel"):
-            for f, fs in zip(fields, spec["fields"]):
+        for f, fs in zip(fields, spec["fields"]):
+            all_cases.append((spec, fs, f, text))
+            if kind in ("pydantic_v2.BaseModel", "pydantic.BaseModel"):
                 v2_cases.append((spec, fs, f, text))
     tie_v2(ck, camp, v2_cases)
+    all_cases += directed_cases(camp)
+    fieldstate.tie(ck, camp, all_cases)
     camp.wall_s = time.time() - t0
+
+
+def directed_cases(camp) -> list:
+    """default factories: `extras["default_factory"]` x required x use_annotated on every kind that writes it, and a default for a
+    member whose type is a model class of the module (the lambda `_get_default_as_pydantic_model` / `_get_default_as_struct_model` builds)"""
+    from datamodel_code_generator.reference import Reference
+
+    out = []
+    base_o = {"std": False, "generic": False, "union_op": False, "strict": [], "field_constraints": False, "use_annotated": False, "use_default_kwarg": False,
+              "use_field_description": False, "strip_default_none": False}
+    for kind in ("pydantic.BaseModel", "pydantic_v2.BaseModel", "dataclasses.dataclass", "msgspec.Struct"):
+        for ua in (False, True):
+            for required in (False, True):
+                for shape in ("extras_list", "extras_dict_alias", "model_default", "model_list_default", "meta_not_nullable", "plain_list_default"):
+                    o = dict(base_o, use_annotated=ua, field_constraints=ua)
+                    spec = {"kind": kind, "opts": o, "fields": []}
+                    try:
+                        s, mgr = _mgr(kind, o)
+                        ref = Reference(path="#/definitions/Pet", original_name="Pet", name="Pet")
+                        s.data_model(reference=ref, fields=[])  # gives the reference its source: a model class of this kind
+                        kw = {"name": "m", "required": required, "use_annotated": ua, "original_name": "m", "extras": {}, "default": None, "nullable": None}
+                        if shape == "extras_list":
+                            kw.update(data_type=mgr.data_type(data_types=[mgr.data_type(type="str")], is_list=True), extras={"default_factory": "list"})
+                        elif shape == "extras_dict_alias":
+                            kw.update(data_type=mgr.data_type(data_types=[mgr.data_type(type="int")], is_dict=True), extras={"default_factory": "dict", "description": "d"}, alias="x-y")
+                        elif shape == "model_default":
+                            kw.update(data_type=mgr.data_type(reference=ref), default={"name": "n"}, extras={"description": "d"})
+                        elif shape == "model_list_default":
+                            kw.update(data_type=mgr.data_type(data_types=[mgr.data_type(reference=ref)], is_list=True), default=[{"name": "n"}])
+                        elif shape == "meta_not_nullable":
+                            kw.update(data_type=mgr.data_type(type="str"), default="x", extras={"description": "d"}, nullable=False)
+                        else:
+                            kw.update(data_type=mgr.data_type(data_types=[mgr.data_type(type="str")], is_list=True), default=["a"])
+                        kw["has_default"] = kw["default"] is not None
+                        f = s.field_model(**kw)
+                        model = s.data_model(reference=Reference(path="#/definitions/M", original_name="M", name="M"), fields=[f])
+                        text = model.render()
+                    except Exception as e:  # noqa: BLE001
+                        camp.hit("directed:real_raises:" + type(e).__name__)
+                        continue
+                    camp.hit("directed:" + shape)
+                    fs = {"name": "m", "directed": shape, "required": required}
+                    out.append((spec, fs, f, text))
+    return out
 
 
 TYPING = {"Optional", "Union", "Literal", "List", "Set", "Dict", "Sequence", "FrozenSet", "Mapping", "Any", "Annotated"}
